@@ -195,7 +195,7 @@ theorem cancelWaiters_stop_q : ∀ (fuel : Nat) (s : St), QG 0 s → s.stopping 
     · rename_i w hw
       have hcount := nShut_dropLast s.commitDs w hw
       have h1 : QG (0 + bShut w) { s with commitDs := s.commitDs.dropLast } := by
-        obtain ⟨q1, q2, q3, q4, q5, q6, q7, q8, q9, q10, q11, q12, q13, q14, q15, q16, q17, q18, q19, q20, q21, q22, q23, q24, q25, q26⟩ := h
+        obtain ⟨q1, q2, q3, q4, q5, q6, q7, q8, q9, q10, q11, q12, q13, q14, q15, q16, q17, q18, q19, q20, q21, q22, q23, q24, q25, q26, q27, q28⟩ := h
         constructor <;> first | assumption | grind
       obtain ⟨a, b, c⟩ := fireWaiter_stop_q (cfg := cfg) (inner := inner) w 0 { s with commitDs := s.commitDs.dropLast } h1 hst
       have hlen : (fireWaiter cfg inner (.err (.ext .cancelled 0)) { s with commitDs := s.commitDs.dropLast } w).commitDs.length < n := by
